@@ -62,7 +62,11 @@ def support_args_untouched(ctx, chk, rule="R15.6", with_extra=False):
         for extra in ((Const(None), NE) if with_extra else (Const(None),)):
             args = {"fnr": Const(None), "fpr": Const(None), "thresholds": Const(None), "nb_points": NB, "nb_extra_points": extra, "x_axis": Const("fnr")}
             args.update(kw)
-            outs = with_stubs(ctx, lambda: ctx.explore(lambda: ev.call(f, [ctx.scores_obj("pos", "pos")], dict(args)), chk))
+            ev.mark_conversions = True
+            try:
+                outs = with_stubs(ctx, lambda: ctx.explore(lambda: ev.call(f, [ctx.scores_obj("pos", "pos")], dict(args)), chk))
+            finally:
+                ev.mark_conversions = False
             for o in returns(outs):
                 n += 1
                 bad = [e for e in o.events if e["kind"] in ("inplace", "augstore", "store") and e.get("root") in (TH, F, P)]
